@@ -48,6 +48,13 @@ func c17Filter(c *core.Ctx) {
 	// filters
 	for _, kind := range []string{"Bridges", "Claims"} {
 		elem := "c." + kind + rangeElemIdx
+		if kind == "Bridges" {
+			for _, b := range fn.Blocks {
+				if iff, ok := b.Instrs[len(b.Instrs)-1].(*ssa.If); ok {
+					core.Debugf("C17-filter cond: %s", sx.Of(iff.Cond))
+				}
+			}
+		}
 		lower := leEdges(fn, sx, "fromBlock", elem+".BlockNum")
 		upper := leEdges(fn, sx, elem+".BlockNum", "toBlock")
 		// the append into newCert.<kind>
@@ -405,7 +412,7 @@ func c17SettledRange(c *core.Ctx, rule string) {
 	}
 	sx := core.NewSymx()
 	var inErr *ssa.Call
-	var rangeCall *ssa.Call
+	var gap *ssa.Call
 	core.Instrs(fn, func(i ssa.Instruction) {
 		cl, ok := i.(*ssa.Call)
 		if !ok {
@@ -414,56 +421,76 @@ func c17SettledRange(c *core.Ctx, rule string) {
 		switch {
 		case strings.HasSuffix(core.CallName(cl), "CertificateStatus).IsInError") && strings.Contains(sx.Of(cl).String(), "lastSentCertificate.Status"):
 			inErr = cl
-		case core.CallName(cl) == "aggsender/types.NewBlockRange" && strings.Contains(sx.Of(cl).String(), "lastSentCertificate"):
-			rangeCall = cl
+		case core.CallName(cl) == "(aggsender/types.BlockRange).Gap":
+			gap = cl
 		}
 	})
 	construct := "flows.(*baseFlow).VerifyBlockRangeGaps#settled-range"
-	if inErr == nil || rangeCall == nil {
-		c.Undecide(rule, construct, fn.Pos(), "IsInError test or the last-settled NewBlockRange not found")
+	if inErr == nil || gap == nil {
+		c.Undecide(rule, construct, fn.Pos(), "IsInError test or the Gap call not found")
 		return
 	}
-	errSide := core.BoolEdges(fn, inErr, true)
-	onErrSide := func(lf phiLeaf) bool {
-		for _, ce := range lf.chain {
+	rangeCall := gap
+	errTrue, errFalse := core.BoolEdges(fn, inErr, true), core.BoolEdges(fn, inErr, false)
+	sideOf := func(chain []phiEdge) string {
+		side := ""
+		for _, ce := range chain {
 			pb := ce.phi.Block().Preds[ce.idx]
-			for _, e := range errSide {
-				to := e.B.Succs[e.Succ]
-				if len(to.Preds) == 1 && (pb == to || to.Dominates(pb)) {
-					return true
+			for name, edges := range map[string][]core.IfEdge{"err": errTrue, "ok": errFalse} {
+				for _, e := range edges {
+					to := e.B.Succs[e.Succ]
+					if len(to.Preds) == 1 && (pb == to || to.Dominates(pb)) {
+						side = name
+					}
 				}
 			}
 		}
-		return false
+		return side
 	}
-	ok := len(errSide) > 0
+	// the last-settled range is the argument of Gap: NewBlockRange(from, to) calls (or literals), merged by Phis; every
+	// (from, to) leaf is judged on the side of the InError test it comes from
+	type ends struct {
+		from, to ssa.Value
+		chain    []phiEdge
+	}
+	var rs []ends
+	for _, lf := range phiLeaves(core.ResolveLoad(gap.Call.Args[1])) {
+		v := lf.val
+		if u, isLoad := v.(*ssa.UnOp); isLoad {
+			v = core.ResolveLoad(u)
+		}
+		if nc, isCall := v.(*ssa.Call); isCall && core.CallName(nc) == "aggsender/types.NewBlockRange" {
+			rs = append(rs, ends{nc.Call.Args[0], nc.Call.Args[1], lf.chain})
+		}
+	}
+	ok := len(errTrue) > 0 && len(rs) > 0
 	var got []string
-	for k, want := range []struct{ err, other []string }{
-		{[]string{"const(0)"}, []string{"lastSentCertificate.FromBlock"}},
-		{[]string{"const(0)", "(lastSentCertificate.FromBlock - const(1))"}, []string{"lastSentCertificate.ToBlock"}},
-	} {
-		for _, lf := range phiLeaves(rangeCall.Call.Args[k]) {
-			t := sx.Of(lf.val).String()
-			side := want.other
-			if onErrSide(lf) {
-				side = want.err
-			}
-			got = append(got, fmt.Sprintf("arg%d:%s(err-side=%v)", k, t, onErrSide(lf)))
-			in := func(list []string) bool {
-				for _, w := range list {
-					if t == w {
-						return true
+	for _, r := range rs {
+		for k, v := range []ssa.Value{r.from, r.to} {
+			want := []struct{ err, other []string }{
+				{[]string{"const(0)"}, []string{"lastSentCertificate.FromBlock"}},
+				{[]string{"const(0)", "(lastSentCertificate.FromBlock - const(1))"}, []string{"lastSentCertificate.ToBlock"}},
+			}[k]
+			for _, lf := range phiLeaves(v) {
+				t := sx.Of(lf.val).String()
+				side := sideOf(append(append([]phiEdge{}, lf.chain...), r.chain...))
+				got = append(got, fmt.Sprintf("arg%d:%s(side=%s)", k, t, side))
+				in := func(list []string) bool {
+					for _, w := range list {
+						if t == w {
+							return true
+						}
 					}
+					return false
 				}
-				return false
-			}
-			hit := in(side)
-			if len(lf.chain) == 0 {
-				hit = in(want.err) && in(want.other) // not merged at all: the same value on both sides
-			}
-			// the zero initialisation that is overwritten on the other side travels through the Phi only from the error side
-			if !hit {
-				ok = false
+				switch side {
+				case "err":
+					ok = ok && in(want.err)
+				case "ok":
+					ok = ok && in(want.other)
+				default:
+					ok = ok && in(want.err) && in(want.other) // not tied to a side: must be right on both
+				}
 			}
 		}
 	}
